@@ -471,7 +471,26 @@ func (m *Mast) Insert(ctx context.Context, key, value interface{}) error {
 			return m.savePathForRoot(ctx, options.path)
 		}
 	}
-	// XXX do after split, XXX mark tree invalid if split fails
+	// Split the child around the new key before touching the node, so that a
+	// failed load or key comparison leaves the tree unchanged.
+	var leftLink interface{}
+	var rightLink interface{}
+	if i < len(node.Link) && node.Link[i] != nil {
+		var child *mastNode
+		child, err = m.load(ctx, node.Link[i])
+		if err != nil {
+			return err
+		}
+		if m.debug {
+			fmt.Printf("  doing a split, of node with keys %v\n", child.Key)
+		}
+		leftLink, rightLink, err = split(ctx, child, key, m)
+		if err != nil {
+			return fmt.Errorf("split: %w", err)
+		}
+	} else if m.debug {
+		fmt.Printf("  child did not need a split\n")
+	}
 	node = node.ToMut(ctx, m)
 	node.Dirty()
 	if i < len(node.Key) {
@@ -488,29 +507,6 @@ func (m *Mast) Insert(ctx context.Context, key, value interface{}) error {
 	} else {
 		node.Link = append(node.Link, nil)
 	}
-	var leftLink interface{}
-	var rightLink interface{}
-	if node.Link[i] != nil {
-		var child *mastNode
-		child, err = m.load(ctx, node.Link[i])
-		if err != nil {
-			return err
-		}
-		if m.debug {
-			fmt.Printf("  doing a split, of node with keys %v\n", child.Key)
-		}
-		leftLink, rightLink, err = split(ctx, child, key, m)
-		if err != nil {
-			return fmt.Errorf("split: %w", err)
-		}
-	} else {
-		if m.debug {
-			fmt.Printf("  child did not need a split\n")
-		}
-		leftLink = nil
-		rightLink = node.Link[i]
-	}
-
 	node.Link[i] = leftLink
 	node.Link[i+1] = rightLink
 	options.path[len(options.path)-1].node = node
